@@ -38,3 +38,19 @@ Proof. reflexivity. Qed.
 Lemma gen_default_bucket_duration_pos :
   0 < C02Consts.defaultWindow / C02Consts.defaultBuckets.
 Proof. reflexivity. Qed.
+
+(* windowScale: the extracted millisecondsPerSecond is consistent with the time units the model uses
+   (ms per second x ns per ms = ns per second), and the default configuration's scale, computed from
+   the extracted constants, is the model's (1/100: ten 100 ms buckets per second / 1000) *)
+Lemma gen_ms_per_second_consistent :
+  C02Consts.millisecondsPerSecond * inject_Z nsPerMillisecond == inject_Z nsPerSecond.
+Proof. reflexivity. Qed.
+Lemma gen_default_window_scale :
+  inject_Z nsPerSecond / (C02Consts.defaultWindow / C02Consts.defaultBuckets) / C02Consts.millisecondsPerSecond
+  == window_scale default_config /\ window_scale default_config == 1 # 100.
+Proof. split; reflexivity. Qed.
+(* the cool-off is the property's "preceding second", the latency default is one second in ms *)
+Lemma gen_coolOff_is_one_second : C02Consts.coolOffDuration == inject_Z nsPerSecond.
+Proof. reflexivity. Qed.
+Lemma gen_defaultMinRt_is_one_second_in_ms : C02Consts.defaultMinRt * inject_Z nsPerMillisecond == inject_Z nsPerSecond.
+Proof. reflexivity. Qed.
